@@ -98,6 +98,66 @@ def d4_key_names_agree(ctx, repo):
     ctx.expect(rule, 8)
 
 
+def d5_frame_index_bookkeeping(ctx, repo):
+    """'turns every datum referenced by an event into exactly one stream datum whose index and seq_num ranges match the event':
+    for legacy datums carrying a `frame` (index of their last frame) the running index is kept in {carry, index}.  The block is
+    interpreted exactly (bsa/miniexec.py) on every frame history up to 3 resources x 3 datums with frame indices < 5 and compared
+    with the reference: ranges are contiguous from 0, datum k covers as many frames as its frame index advanced within its
+    resource, and a frame index that falls back (next resource) restarts the count without losing what was accumulated."""
+    import itertools
+
+    from .. import miniexec
+
+    rule = "C35.D5-frame-index-ranges-contiguous"
+    f = repo.func(TW, "RunNormalizer._convert_datum_to_stream_datum")
+    blk = [s for s in A.walk_stmts(f.node.body) if isinstance(s, ast.If) and A.norm(s.test) == "frame is not None"]
+    ctx.require(len(blk) == 1, "anchor vanished: `if frame is not None` block of _convert_datum_to_stream_datum")
+    body = [s for s in blk[0].body if not (isinstance(s, ast.Assign) and isinstance(s.value, ast.Subscript) and "self." in A.norm(s.value))]
+    dict_names = [t.id for s in blk[0].body if isinstance(s, ast.Assign) and "self._next_frame_index" in A.norm(s.value) for t in s.targets if isinstance(t, ast.Name)]
+    ctx.require(len(dict_names) == 1, "anchor vanished: the per-(stream, data key) frame index record")
+    dn = dict_names[0]
+    # initial record: defaultdict(lambda: {...}) in __init__
+    init = repo.func(TW, "RunNormalizer.__init__")
+    recs = [n for st in A.walk_stmts(init.node.body) if "_next_frame_index" in A.norm(st) for n in ast.walk(st) if isinstance(n, ast.Dict)]
+    ctx.require(recs, "anchor vanished: initial value of the frame index record")
+    init_rec = {A.const_str(k): v.value for k, v in zip(recs[0].keys, recs[0].values) if isinstance(v, ast.Constant)}
+    ranges_stmt = [s for s in A.walk_stmts(f.node.body) if isinstance(s, ast.Assign) and A.norm(s.targets[0]) == "indices"]
+    ok = len(ranges_stmt) == 1 and A.norm(ranges_stmt[0].value) == "StreamRange(start=index_start, stop=index_stop)"
+    ctx.ob(rule, cname(f, None, "indices = [index_start, index_stop)"), ok, "" if ok else "the computed range is not what is emitted", where=where(f, f.node))
+    seqs = [s for s in A.walk_stmts(f.node.body) if isinstance(s, ast.Assign) and A.norm(s.targets[0]) == "seq_nums"]
+    ok = len(seqs) == 1 and A.norm(seqs[0].value) == "StreamRange(start=index_start + 1, stop=index_stop + 1)"
+    ctx.ob(rule, cname(f, None, "seq_nums = indices shifted by one"), ok, "" if ok else "seq_nums no longer follow the indices", where=where(f, f.node))
+    # histories: per resource a strictly increasing list of last-frame indices; the next resource starts below what was reached
+    def histories():
+        per_res = [c for n in (1, 2, 3) for c in itertools.combinations(range(5), n)]
+        for n_res in (1, 2, 3):
+            for combo in itertools.product(per_res, repeat=n_res):
+                okc = all(combo[i + 1][0] + 1 < combo[i][-1] + 1 for i in range(n_res - 1))  # the restart is detectable: first datum of the next resource ends before the reached index
+                if okc:
+                    yield combo
+    bad, n = None, 0
+    for hist in histories():
+        n += 1
+        env = {dn: dict(init_rec)}
+        total = 0
+        for r in hist:
+            prev = 0
+            for fr in r:
+                env["frame"] = fr
+                miniexec.run_local_block(body, env)
+                want = (total, total + (fr + 1 - prev))
+                got = (env.get("index_start"), env.get("index_stop"))
+                if got != want and bad is None:
+                    bad = (hist, fr, got, want)
+                total, prev = want[1], fr + 1
+        if bad:
+            break
+    ok = bad is None
+    ctx.ob(rule, cname(f, None, f"running frame index over {n} frame histories (<= 3 resources x 3 datums, frames < 5)"), ok,
+           "" if ok else f"history {bad[0]} (last-frame index of each datum, per resource): at frame {bad[1]} the datum gets indices {bad[2]}, expected {bad[3]} "
+           "(ranges must continue where the previous datum stopped)", nontrivial=True, witness=None if ok else [f"history {bad[0]}", f"got {bad[2]}", f"expected {bad[3]}"], where=where(f, blk[0]))
+
+
 def run(ctx):
     repo = ctx.repo
     ctx.explanation = (
@@ -107,7 +167,7 @@ def run(ctx):
         "through emit(), which validates against the schema, and emit is the only caller of the dispatcher; D3 _ConditionalBackup appends "
         "to its buffer before calling the primary, only ever sets the failure flag, flushes the buffer in order to every backup inside a "
         "per-backup try/except, then clears it. D4 the key names descriptor() records for event() to filter by are read after every statement that renames reserved "
-        "keys, event() renames before it filters, and both rename the same names the same way. Not decided: datum -> stream-datum index arithmetic, patch "
+        "keys, event() renames before it filters, and both rename the same names the same way; D5 the frame-index bookkeeping of legacy datums gives contiguous ranges on every bounded frame history. Not decided: datum -> stream-datum index arithmetic, patch "
         "functions supplied by the user.")
     cd = CopyDepth(repo, TW, "RunNormalizer")
     n_handlers = 0
@@ -188,6 +248,7 @@ def run(ctx):
                 ctx.info(f"(outside C35's subject) {g.key}:{A.head(stmt)}: {what}")
 
     d4_key_names_agree(ctx, repo)
+    d5_frame_index_bookkeeping(ctx, repo)
 
 
 CLAIM = {
@@ -196,12 +257,14 @@ CLAIM = {
             "F-8 would be reported again), that every document it emits goes through the validating emit, and that _ConditionalBackup buffers "
             "before trying the primary, never resets its failure flag, and flushes in order to every backup in isolation; for 'keeps every internal value' it decides the key-name "
             "agreement only: the names descriptor() records are read after every renaming of reserved keys, event() renames before filtering, "
-            "and both rename identically. Datum index arithmetic is not decided.",
-    "technique": "alias / copy-depth abstract interpretation with mutation sinks; call-site ownership; CFG reachability (recorded names vs key-set mutations); writer/reader agreement of the two renamings",
+            "and both rename identically; and it decides the running frame index of legacy datums by interpreting that block exactly on every "
+            "frame history up to 3 resources x 3 datums (ranges contiguous, restart detected, nothing accumulated is lost).",
+    "technique": "alias / copy-depth abstract interpretation with mutation sinks; call-site ownership; CFG reachability (recorded names vs key-set mutations); writer/reader agreement of the two renamings; exact interpretation of the index bookkeeping block over all bounded frame histories",
 }
 
 T = "callbacks/tiled_writer.py"
 MUTANTS = [
+    ("frame-index carry overwritten instead of accumulated (seed C35-b)", [(T, "            _next_index[\"index\"] = frame + 1\n            index_stop = sum(_next_index.values())\n            if index_stop < index_start:\n                # The datum is likely referencing a next Resource, but the indexing must continue\n                _next_index[\"carry\"] = index_start\n                index_stop = sum(_next_index.values())", "            if frame + 1 < _next_index[\"index\"]:\n                _next_index[\"carry\"] = _next_index[\"index\"]\n            _next_index[\"index\"] = frame + 1\n            index_stop = sum(_next_index.values())")], "C35.D5"),
     ("event filters before renaming reserved keys", [(T, "        # Part 1. ----- Internal Data -----\n        # Emit a new Event with _internal_ data: select only keys without 'external' flag or those that are filled\n        filled = doc.pop(\"filled\", {})", "        filled = doc.get(\"filled\", {})"),
         (T, "        event_doc[\"timestamps\"] = {k: v for k, v in doc[\"timestamps\"].items() if k in event_keys}\n        self.emit(DocumentNames.event, event_doc)", "        event_doc[\"timestamps\"] = {k: v for k, v in doc[\"timestamps\"].items() if k in event_keys}\n        for name in RESERVED_DATA_KEYS:\n            if name in doc[\"data\"].keys():\n                doc[\"data\"][f\"_{name}\"] = doc[\"data\"].pop(name)\n        self.emit(DocumentNames.event, event_doc)")], "C35.D4"),
     ("event renames reserved keys with a different prefix", [(T, "                doc[\"data\"][f\"_{name}\"] = doc[\"data\"].pop(name)", "                doc[\"data\"][f\"__{name}\"] = doc[\"data\"].pop(name)")], "C35.D4"),
